@@ -129,6 +129,8 @@ class PropZoo(Expr):
     lit: Literal["a", "b"] = "a"
     p: Path = Path(".")
     fl: float = 0.0
+    fss: frozenset[str] = frozenset()
+    tf: tuple[frozenset[str], ...] = ()
     hidden: int = field(default=0, compare=False)
 
 
@@ -245,6 +247,9 @@ class Gen:
             n = PropZoo(e=r.choice(list(Color)), t=tuple(r.randint(0, 3) for _ in range(r.randint(0, 3))),
                         fs=frozenset(elems), o=r.choice([None, 0, 1]), lit=r.choice(["a", "b"]),
                         p=Path(r.choice([".", "a/b", "/x"])), fl=r.choice([0.0, 1.5, -2.25, 1e10]),
+                        fss=frozenset(gen_str(r) for _ in range(r.randint(0, 4))),
+                        tf=tuple(frozenset(r.choice("abcdefgh") for _ in range(r.randint(0, 3)))
+                                 for _ in range(r.randint(0, 2))),
                         hidden=r.randint(0, 1), origin=o)
         else:
             n = Expr(origin=o)
@@ -395,7 +400,7 @@ def enc_tree(n: ASTNode, toks: Tokens, orgs: OrgTable, seen: set | None = None):
     props = [A("p")]
     for f in prop_fields(cls):
         v = object.__getattribute__(n, f.name)
-        props.append([f.name, str(type(v)), str(v), enc_val(v), bool(f.compare), bool(f.init)])
+        props.append([f.name, str(type(v)), stable_text(v), enc_val(v), bool(f.compare), bool(f.init)])
     kids = [A("k")]
     for name, coll, ns in kid_lists(n):
         kids.append([name, coll] + [enc_tree(c, toks, orgs, seen) for c in ns])
@@ -418,3 +423,134 @@ def show(n: ASTNode, depth: int = 0) -> str:
     if o is not NO_ORIGIN:
         parts.append(f"origin=<{o.fqn}>")
     return f"{cls.__name__}({', '.join(parts)})"
+
+
+# ---------------------------------------------------------------- specs (pure data descriptions of trees)
+
+def to_spec(n: ASTNode, memo: dict | None = None):
+    """(cls name, {init prop: value}, {kid field: spec | None | [spec…]}, origin, key)"""
+    if memo is None:
+        memo = {}
+    if id(n) in memo:
+        return ("ref", memo[id(n)])
+    key = len(memo)
+    memo[id(n)] = key
+    cls = type(n)
+    props = {f.name: object.__getattribute__(n, f.name) for f in prop_fields(cls) if f.init}
+    kids = {}
+    for name, coll in CHILD_FIELDS[cls]:
+        v = object.__getattribute__(n, name)
+        if coll:
+            kids[name] = [to_spec(c, memo) for c in v]
+        else:
+            kids[name] = None if v is None else to_spec(v, memo)
+    return ("node", cls.__name__, props, kids, object.__getattribute__(n, "origin"), key)
+
+
+_BY_NAME = {c.__name__: c for c in ALL_CLASSES}
+
+
+def build(spec, memo: dict | None = None) -> ASTNode:
+    if memo is None:
+        memo = {}
+    if spec[0] == "ref":
+        return memo[spec[1]]
+    _, cname, props, kids, origin, key = spec
+    kw = dict(props)
+    for name, v in kids.items():
+        if isinstance(v, list):
+            kw[name] = tuple(build(c, memo) for c in v)
+        else:
+            kw[name] = None if v is None else build(v, memo)
+    n = _BY_NAME[cname](origin=origin, **kw)
+    memo[key] = n
+    return n
+
+
+def spec_positions(spec, path=()):
+    """all (path, spec) of node specs, pre-order; path = tuple of (field, index|None)"""
+    if spec[0] != "node":
+        return
+    yield path, spec
+    for name, v in spec[3].items():
+        if isinstance(v, list):
+            for i, c in enumerate(v):
+                yield from spec_positions(c, path + ((name, i),))
+        elif v is not None:
+            yield from spec_positions(v, path + ((name, None),))
+
+
+def spec_replace(spec, path, new):
+    if not path:
+        return new
+    (name, i), rest = path[0], path[1:]
+    _, cname, props, kids, origin, key = spec
+    kids = dict(kids)
+    if i is None:
+        kids[name] = spec_replace(kids[name], rest, new)
+    else:
+        lst = list(kids[name])
+        lst[i] = spec_replace(lst[i], rest, new)
+        kids[name] = lst
+    return ("node", cname, props, kids, origin, key)
+
+
+def val_eq(v, w) -> bool:
+    """the statement's "equal values of equal types", structurally (bool is not int)"""
+    if type(v) is not type(w):
+        return False
+    if isinstance(v, tuple):
+        return len(v) == len(w) and all(val_eq(a, b) for a, b in zip(v, w))
+    if isinstance(v, frozenset):
+        if len(v) != len(w):
+            return False
+        rest = list(w)
+        for a in v:
+            for j, b in enumerate(rest):
+                if val_eq(a, b):
+                    del rest[j]
+                    break
+            else:
+                return False
+        return True
+    return v == w
+
+
+def spec_content_eq(a, b, ma=None, mb=None) -> bool:
+    """the C01 statement evaluated on two specs (independent of pyoak)"""
+    ma = {} if ma is None else ma
+    mb = {} if mb is None else mb
+    def res(s, m):
+        if s[0] == "ref":
+            return m[s[1]]
+        m[s[5]] = s
+        return s
+    a, b = res(a, ma), res(b, mb)
+    if a[1] != b[1]:
+        return False
+    cls = _BY_NAME[a[1]]
+    for f in prop_fields(cls):
+        if f.init and f.compare and not val_eq(a[2][f.name], b[2][f.name]):
+            return False
+    for name, coll in CHILD_FIELDS[cls]:
+        x, y = a[3][name], b[3][name]
+        if coll:
+            if len(x) != len(y) or not all(spec_content_eq(c, d, ma, mb) for c, d in zip(x, y)):
+                return False
+        else:
+            if (x is None) != (y is None):
+                return False
+            if x is not None and not spec_content_eq(x, y, ma, mb):
+                return False
+    return True
+
+
+def stable_text(v, top=True) -> str:
+    """the harness' own rendering of the text pyoak hashes for a property value: str(v), with
+    frozenset elements (also inside tuples) listed in sorted order of their renderings"""
+    if isinstance(v, frozenset) and v:
+        return "frozenset({" + ", ".join(sorted(stable_text(x, False) for x in v)) + "})"
+    if type(v) is tuple:
+        items = [stable_text(x, False) for x in v]
+        return "(" + ", ".join(items) + ("," if len(items) == 1 else "") + ")"
+    return str(v) if top else repr(v)
